@@ -46,7 +46,7 @@ CLAIMED = {
             "the encoder modules is an obligation decided on the MIR (dominating `?`-propagated checks). Hangs and "
             "numeric behaviour of in-range values are not decided.", "4/C17"),
     "C09": ("GUARD: the subframe chooser's result summarised as a case tree by the effect interpreter (Option/bool combinators, match, early returns all become cases); every leaf is verbatim, constant or a candidate whose path carries count_bits(candidate) < bound <= verbatim baseline; GUARD/stereo: control dependence of the selected assignment on `<` between sums of real count_bits (loop or argmin fold) with backward "
-            "slices of the guard operands + the C08 EFFECT rules (the guards compare count_bits values, which are emitted sizes only if write == count_bits)",
+            "slices of the guard operands + the C08 EFFECT rules (the guards compare count_bits values, which are emitted sizes only if write == count_bits) + PLAIN-STATE / STALE-READ of C10 (no coding decision is taken from cross-call state)",
             "Every non-verbatim candidate reaches the subframe chooser's result only through a `<` between its real "
             "BitRepr::count_bits and a bound derived from the verbatim baseline; the stereo assignment changes only "
             "under a `<` of real bit-count sums. A necessary condition for 'never larger than verbatim'; the "
